@@ -57,6 +57,12 @@ CLAIMED["C13"] = dict(
     note="Trusted: the evaluator (book/src/attrs.md), the run-time calibration of supports= atoms by canary methods, the `*` base case (validated by the canary), the symbol extractors.",
     ref="DESIGN.md §2 C13")
 
+CLAIMED["C17"] = dict(
+    engine="P", technique="model-based + metamorphic property testing over generated configuration assignments (Hypothesis), oracle = reference precedence model and a canonical single-source run",
+    text="Generated assignments of distinct values to the three configuration sources (kebab/snake config.toml, --config, #[diplomat::config] on struct/mod/impl) in shared, scoped and foreign-scoped key forms for every documented key and backend; the output must equal the canonical run with only the model's effective value, and lib_name / kotlin.domain are also observed directly in paths and Native.load. Exploration over configurations.",
+    note="Trusted: the reference precedence model (scoped beats shared; toml < cli < attribute) and the canonical --config base case.",
+    ref="DESIGN.md §2 C17")
+
 TODO_REASON = "check not built yet in this revision of /verif (planned, see DESIGN.md §2); not claimed until it is silent on the unchanged tree and kills its mutants"
 
 ALL = ["C%02d" % i for i in range(1, 18)]
